@@ -31,6 +31,7 @@ import (
 	"net/http"
 	"net/http/httptest"
 	"os"
+	"path/filepath"
 	"runtime"
 	"runtime/debug"
 	"sort"
@@ -573,7 +574,9 @@ type workerOut struct {
 }
 
 func workerMain(job string) {
-	scr := evid.Scratch("c36w")
+	// scratch inside the parent's scratch directory: removed by the parent even when a handler
+	// kills this process
+	scr := filepath.Join(filepath.Dir(os.Getenv("VERIF_OUT")), fmt.Sprintf("w-%d", os.Getpid()))
 	defer os.RemoveAll(scr)
 	hx.QuietLogs(scr)
 	initNodeSide()
@@ -771,6 +774,7 @@ func main() {
 		"classification table (which registered methods mine / submit transactions / change settings / use wallet data) is the check's reading of the statement and of the repository's own gate levels; every other registered method is unclassified and never alarmed on",
 		"requests are handed to the handler directly (httptest): header values are seen exactly as given (no wire-level trimming)",
 		"utils/http/jsonrpc.Server is not started by the node (client library only); it is driven because the property names it")
+	os.RemoveAll(scr)
 	r.Finish(evid.Coverage{
 		"evaluations":         cnt.evals + cellsRun,
 		"distinct_nontrivial": len(cnt.nontrivial) + obligations,
@@ -852,6 +856,7 @@ func replay(r *evid.Run, scr string) {
 			}
 		}
 	}
+	os.RemoveAll(scr)
 	r.Finish(evid.Coverage{})
 }
 
